@@ -247,6 +247,16 @@ impl<'a> Fold<Diagnostic> for TypeResolver<'a> {
         node.recurse_fold(self)
     }
 
+    fn fold_program_access_decl(
+        &mut self,
+        node: ProgramAccessDecl,
+    ) -> Result<ProgramAccessDecl, Diagnostic> {
+        // An access path (VAR_ACCESS name : variable : type) writes out the
+        // type of the variable it gives access to.
+        self.require_known_type(&node.type_name, "Access path type");
+        node.recurse_fold(self)
+    }
+
     fn fold_enumerated_specification_kind(
         &mut self,
         node: EnumeratedSpecificationKind,
